@@ -361,9 +361,14 @@ func driveRoundTrip(c *driverCtx, prop string) error {
 	}
 	// dedicated minimal witnesses (one feature each, including every known finding)
 	for _, wt := range witnessCases() {
-		for k := 0; k < 2; k++ {
+		if prop == "C02" && (wt.name == "round-number-collections" || wt.name == "large-payloads") {
+			// decoding payloads of tens of thousands of items in TLC takes the judge hours; the same files are judged by value under C01
+			continue
+		}
+		for k := 0; k < 3; k++ {
 			vals := wt.values(c)
-			cfg := rtConfig{Codec: codecs3[k%3], Block: 1 << 20, Flush: map[int]bool{}, Reader: "bytes"}
+			// one big block; one record per block; small blocks
+			cfg := rtConfig{Codec: codecs3[k%3], Block: []int{1 << 20, 0, 64}[k], Flush: map[int]bool{}, Reader: []string{"bytes", "bufio", "chunk"}[k]}
 			runRoundTrip(c, prop, wt.rtCase, vals, cfg, "witness|"+wt.name)
 		}
 	}
